@@ -150,6 +150,12 @@ def align_unions(fam, t, live):
         if k == "map":
             a = typing.get_args(live)
             return (k, t[1], t[2], align_unions(fam, t[3], a[1]))
+        if k == "vtuple":
+            return (k, t[1], align_unions(fam, t[2], typing.get_args(live)[0]))
+        if k == "tuple":
+            a = typing.get_args(live)
+            if len(a) == len(t[2]):
+                return (k, t[1], [align_unions(fam, m, x) for m, x in zip(t[2], a)])
     except Exception:
         return t
     return t
